@@ -57,11 +57,21 @@ def gen_plan(run_seed, tier, index):
     r = stream(run_seed, 'plan')
     base = 400000
     # only models that contain an association class
-    while True:
+    # ... and, in half of the runs, one with a non-key reference over more
+    # than one namespace (the only reference ModifyInstance may retarget)
+    want_retarget = r.random() < 0.5
+    for _try in range(400):
         mseed = base + r.randrange(TIERS[tier]['models'] * 3)
         model = mg.gen_model(mseed, with_methods=False, max_inst=8)
-        if any(c['assoc'] for c in model['classes']):
-            break
+        if not any(c['assoc'] for c in model['classes']):
+            continue
+        if want_retarget and _try < 300 and not (
+                len(model['namespaces']) > 1 and any(
+                    p['type'] == 'reference' and not p.get('key')
+                    for c in model['classes'] if c['assoc']
+                    for p in c['props'])):
+            continue
+        break
     steps = []
     n = r.randint(4, 25)
     for _ in range(n):
@@ -77,9 +87,12 @@ def gen_plan(run_seed, tier, index):
             steps.append(['delete_assoc', r.randrange(40)])
         elif k < 0.80:
             steps.append(['create_end', r.randrange(1 << 30)])
-        elif k < 0.88:
+        elif k < (0.88 if not want_retarget else 0.95):
             steps.append(['modify_assoc', r.randrange(40), r.randrange(40),
-                          r.choice(['same', 'same', 'cross'])])
+                          r.choice(['same', 'same', 'cross']),
+                          # the new reference may spell the namespace in
+                          # another lexical case
+                          r.random() < 0.3])
         else:
             steps.append(['query_only', r.randrange(1 << 30)])
     return {'check': ID, 'model_seed': mseed, 'steps': steps,
@@ -169,7 +182,13 @@ def execute(plan):
             rv = getattr(conn, name)(**kw)
             if name.startswith('Iter'):
                 rv = list(rv)
-            return ('ok', rv)
+            # aliasing fault: the caller scribbles over everything it was
+            # handed (down into the reference keybindings of the paths);
+            # the oracle works on a private copy taken before
+            keep = copy.deepcopy(rv)
+            store.scramble(rv)
+            M.bump('aliasing_mutations')
+            return ('ok', keep)
         except CIMError as e:
             return ('cim', e)
         except Exception as e:  # pylint: disable=broad-except
@@ -393,8 +412,15 @@ def execute(plan):
                 return
 
     queries(-1)
+    orphan = [False]
     for i, st in enumerate(plan['steps']):
         if M.V:
+            break
+        if orphan[0]:
+            # a copy in a namespace that no reference names was left behind
+            # (the mock does not track where an association was created):
+            # outside what the mock's multi-namespace support defines, the
+            # history ends here
             break
         kind = st[0]
         if kind == 'create_assoc':
@@ -508,6 +534,7 @@ def execute(plan):
                     del RM.inst[k2]
                 else:
                     M.bump('unreferenced_copy_left')
+                    orphan[0] = True
             M.bump('association_deleted')
         elif kind == 'modify_assoc':
             # retarget the non-key reference (and Weight) of an association
@@ -523,12 +550,22 @@ def execute(plan):
             cands = [e for e in ends() if RM.is_sub(e[1], d['ref'])]
             copies = [k2 for k2 in RM.inst if k2[1] == k[1] and k2[2] == k[2]]
             copy_ns = {k2[0] for k2 in copies}
+            named = {c2[1][0] for _n, (t2, _a2, c2) in rec['props'].items()
+                     if t2 == 'reference' and c2 is not None}
+            if not named <= copy_ns:
+                # a left-over copy whose sibling copies were deleted through
+                # another namespace (see delete_assoc): the mock refuses to
+                # modify it; not a state this step is about
+                M.bump('modify_skipped_incomplete_copies')
+                continue
             if st[3] == 'same':
                 cands = [e for e in cands if e[0] in copy_ns]
             if not cands:
                 continue
             tgt = cands[st[2] % len(cands)]
             newref = copy.deepcopy(RM.inst[tgt]['path'])
+            if len(st) > 4 and st[4]:
+                newref.namespace = newref.namespace.upper()
             inst = CIMInstance(rec['cls'], properties=[
                 CIMProperty(d['name'], newref, type='reference',
                             reference_class=d['ref'])])
@@ -544,17 +581,22 @@ def execute(plan):
                 break
             if out[0] == 'ok':
                 cv = (d['type'], False, store.canon_value(newref))
+                # the copies in the namespaces the references name (and the
+                # one the request was addressed to) are updated; a copy in a
+                # namespace that WAS named and is not named any more goes
+                # away; a copy in a namespace that was not named before
+                # (left over from an earlier retarget) is not touched
+                old_named = set(named)
+                RM.inst[k]['props'][d['name'].lower()] = cv
+                new_named = {c2[1][0] for _n, (t2, _a2, c2) in
+                             RM.inst[k]['props'].items()
+                             if t2 == 'reference' and c2 is not None}
                 for k2 in copies:
-                    RM.inst[k2]['props'][d['name'].lower()] = cv
-                # copies live in the namespaces the references name (plus
-                # the namespace the request was addressed to); a copy in a
-                # namespace that is not referenced any more goes away
-                refns = {k[0]}
-                for _n, (t2, _a2, c2) in RM.inst[k]['props'].items():
-                    if t2 == 'reference' and c2 is not None:
-                        refns.add(c2[1][0])
+                    if k2[0] in new_named or k2[0] == k[0]:
+                        RM.inst[k2]['props'][d['name'].lower()] = cv
                 for k2 in copies:
-                    if k2[0] not in refns:
+                    if k2[0] in old_named and k2[0] not in new_named and \
+                            k2[0] != k[0]:
                         del RM.inst[k2]
                         M.bump('copy_removed_by_retarget')
                 if tgt[0] not in copy_ns:
